@@ -5,7 +5,7 @@
 From Coq Require Import Permutation.
 From LP Require Import Proofs.Tactics Proofs.LedgerBase Proofs.Loop Proofs.Shuffle Proofs.Gates Proofs.Frames Proofs.Filter
   Proofs.Alloc Proofs.Confirm Proofs.Settle Proofs.Ledger Proofs.Stage Proofs.Resume Proofs.FisherYates Proofs.Rng
-  Proofs.Guaranteed Proofs.GuaranteedLoop Proofs.Leftover Proofs.ClaimLedger Proofs.Partition Proofs.Lifecycle Proofs.Setup
+  Proofs.Guaranteed Proofs.Nft Proofs.GuaranteedLoop Proofs.Leftover Proofs.ClaimLedger Proofs.Partition Proofs.Lifecycle Proofs.Setup
   Proofs.Examples.
 Open Scope N_scope.
 
@@ -200,6 +200,164 @@ Qed.
 Lemma PreG_ext w w' l : st w' = st w -> bal w' = bal w -> PreG w l -> PreG w' l.
 Proof. intros Hs Hb [Hp Hg]. constructor; [eapply Pre_ext; eauto | rewrite Hs; exact Hg]. Qed.
 
+(** ** blacklisting, refunding and un-blacklisting participants of the guaranteed-ticket contracts *)
+
+(** what the guarantee part of these endpoints may change *)
+Definition gt_only (s s' : state) : Prop :=
+  exists g u b, s' = s <| gt_users := g |> <| uts := u |> <| bl_uts := b |>.
+Lemma gt_only_refl s : gt_only s s.
+Proof. exists (gt_users s), (uts s), (bl_uts s). destruct s; reflexivity. Qed.
+Lemma gt_only_trans a b c : gt_only a b -> gt_only b c -> gt_only a c.
+Proof. intros (g & u & bl & ->) (g' & u' & bl' & ->). exists g', u', bl'. reflexivity. Qed.
+Lemma gt_only_gub s g u b : gt_only s (s <| gt_users := g |> <| uts := u |> <| bl_uts := b |>).
+Proof. exists g, u, b. reflexivity. Qed.
+Lemma gt_only_bgu s g u b : gt_only s (s <| gt_users := g |> <| bl_uts := b |> <| uts := u |>).
+Proof. exists g, u, b. destruct s; reflexivity. Qed.
+Lemma gt_only_bu s u b : gt_only s (s <| bl_uts := b |> <| uts := u |>).
+Proof. exists (gt_users s), u, b. destruct s; reflexivity. Qed.
+Lemma gt_only_neutral s s' : gt_only s s' -> neutral s s'.
+Proof. intros (g & u & b & ->). unfold neutral. cbn. repeat split. Qed.
+
+Lemma swap_remove_NoDup x l : NoDup l -> NoDup (swap_remove x l).
+Proof.
+  intros Hnd. destruct (mem x l) eqn:Em.
+  - apply mem_In' in Em. apply (swap_remove_facts x l Hnd Em).
+  - unfold swap_remove. rewrite Em. exact Hnd.
+Qed.
+
+Lemma clear_gt_loop_v1_only : forall l s rm tg s' rm' tg',
+  clear_gt_loop_v1 (s, rm, tg) l = Ok (s', rm', tg') ->
+  gt_only s s' /\ (NoDup (gt_users s) -> NoDup (gt_users s')).
+Proof.
+  induction l as [|u l IH]; intros s rm tg s' rm' tg' E; cbn [clear_gt_loop_v1] in E.
+  - inversion E; subst. split; [apply gt_only_refl|auto].
+  - destruct (mem u (gt_users s)).
+    + apply bind_ok in E. destruct E as (tg1 & _ & E). apply bind_ok in E. destruct E as (tg2 & _ & E).
+      destruct (IH _ _ _ _ _ _ E) as [Ho Hn]. split.
+      * eapply gt_only_trans; [|exact Ho]. apply gt_only_gub.
+      * intros Hnd. apply Hn. cbn. apply swap_remove_NoDup. exact Hnd.
+    + eapply IH; eauto.
+Qed.
+
+Lemma clear_gt_loop_v2_only : forall l s nw tg s' nw' tg',
+  clear_gt_loop_v2 (s, nw, tg) l = Ok (s', nw', tg') ->
+  gt_only s s' /\ (NoDup (gt_users s) -> NoDup (gt_users s')).
+Proof.
+  induction l as [|u l IH]; intros s nw tg s' nw' tg' E; cbn [clear_gt_loop_v2] in E.
+  - inversion E; subst. split; [apply gt_only_refl|auto].
+  - apply bind_ok in E. destruct E as (tg1 & _ & E).
+    destruct (IH _ _ _ _ _ _ E) as [Ho Hn]. split.
+    + eapply gt_only_trans; [|exact Ho]. apply gt_only_gub.
+    + intros Hnd. apply Hn. cbn. apply swap_remove_NoDup. exact Hnd.
+Qed.
+
+Lemma unbl_gt_loop_v1_only : forall l s nw tg s' nw' tg',
+  unbl_gt_loop_v1 (s, nw, tg) l = Ok (s', nw', tg') ->
+  gt_only s s' /\ (NoDup (gt_users s) -> NoDup (gt_users s')).
+Proof.
+  induction l as [|u l IH]; intros s nw tg s' nw' tg' E; cbn [unbl_gt_loop_v1] in E.
+  - inversion E; subst. split; [apply gt_only_refl|auto].
+  - destruct (_ || _); [eapply IH; eauto|].
+    destruct (mem u (gt_users s)) eqn:Em; [eapply IH; eauto|].
+    apply bind_ok in E. destruct E as (u1 & _ & E).
+    apply bind_ok in E. destruct E as (nw1 & _ & E). apply bind_ok in E. destruct E as (nw2 & _ & E).
+    destruct (IH _ _ _ _ _ _ E) as [Ho Hn]. split.
+    + eapply gt_only_trans; [|exact Ho]. apply gt_only_bgu.
+    + intros Hnd. apply Hn. cbn. apply NoDup_snoc; [exact Hnd|]. intros Hi. apply mem_In' in Hi. congruence.
+Qed.
+
+Lemma unbl_gt_loop_v2_only : forall l s nw tg s' nw' tg',
+  unbl_gt_loop_v2 (s, nw, tg) l = Ok (s', nw', tg') ->
+  gt_only s s' /\ (NoDup (gt_users s) -> NoDup (gt_users s')).
+Proof.
+  induction l as [|u l IH]; intros s nw tg s' nw' tg' E; cbn [unbl_gt_loop_v2] in E.
+  - inversion E; subst. split; [apply gt_only_refl|auto].
+  - destruct (range s u); [|eapply IH; eauto].
+    apply bind_ok in E. destruct E as ([[s1 nw1] tg1] & H1 & E).
+    destruct (IH _ _ _ _ _ _ E) as [Ho Hn].
+    destruct (0 <? _).
+    + apply bind_ok in H1. destruct H1 as (u1 & _ & H1). inversion H1; subst s1 nw1 tg1; clear H1. split.
+      * eapply gt_only_trans; [|exact Ho]. apply gt_only_bgu.
+      * intros Hnd. apply Hn. cbn. apply set_insert_NoDup. exact Hnd.
+    + inversion H1; subst s1 nw1 tg1; clear H1. split.
+      * eapply gt_only_trans; [|exact Ho]. apply gt_only_bu.
+      * intros Hnd. apply Hn. cbn. exact Hnd.
+Qed.
+
+Lemma PreG_gt_only w l s' nw tg :
+  PreG w l -> gt_only (st w) s' -> NoDup (gt_users s') ->
+  PreG (set_st w (s' <| nr_winning := nw |> <| total_guaranteed := tg |>)) l.
+Proof.
+  intros [Hp Hg] Ho Hnd. constructor; [|rewrite st_set_st; exact Hnd].
+  eapply Pre_neutral_gen; [| |exact Hp]; rewrite ?st_set_st, ?bal_set_st; [|reflexivity].
+  destruct Ho as (g & u & b & ->). unfold neutral. cbn. repeat split.
+Qed.
+
+Lemma PreG_blacklist_loop e : forall la w l w',
+  PreG w l -> ~ In sc_addr la -> blacklist_loop e w la = Ok w' -> PreG w' l.
+Proof.
+  induction la as [|a la IH]; intros w l w' Hp Hsc E; [inversion E; subst; exact Hp|].
+  rewrite blacklist_loop_cons in E. apply bind_ok in E. destruct E as (w1 & H1 & E).
+  eapply IH; [|intros Hi; apply Hsc; now right|exact E].
+  destruct Hp as [Hp Hg]. constructor.
+  - eapply Pre_bl_one; [exact Hp| |exact H1]. intros ->. apply Hsc. now left.
+  - destruct (bl_one_only _ _ _ _ H1) as (c & bl & ->). exact Hg.
+Qed.
+
+Definition guar (v : variant) : Prop := v = Gt1 \/ v = Mig \/ v = Lgt \/ v = Gt2.
+
+Theorem PreG_blacklist v we e w l la w' :
+  guar v -> PreG w l -> ~ In sc_addr la -> blacklist_endpoint v we e w la = Ok w' -> PreG w' l.
+Proof.
+  intros Hv Hp Hsc E. unfold blacklist_endpoint in E.
+  apply bind_ok in E. destruct E as (w1 & H1 & E).
+  unfold add_users_to_blacklist in H1. apply bind_ok in H1. destruct H1 as (u1 & _ & H1). apply bind_ok in H1. destruct H1 as (u2 & _ & H1).
+  pose proof (PreG_blacklist_loop e la w l w1 Hp Hsc H1) as Hp1.
+  apply bind_ok in E. destruct E as (w2 & H2 & E).
+  assert (Hp2 : PreG w2 l).
+  { destruct Hv as [-> | [-> | [-> | ->]]].
+    1,2,3: unfold clear_gt_after_blacklist_v1 in H2; apply bind_ok in H2; destruct H2 as ([[s1 rm] tg] & Hl & H2);
+      inversion H2; subst w2; clear H2; destruct (clear_gt_loop_v1_only _ _ _ _ _ _ _ Hl) as [Ho Hn];
+      destruct (0 <? rm);
+      [ apply PreG_gt_only; [exact Hp1|exact Ho|apply Hn; apply Hp1]
+      | replace (s1 <| total_guaranteed := tg |>) with (s1 <| nr_winning := nr_winning s1 |> <| total_guaranteed := tg |>) by (destruct s1; reflexivity);
+        apply PreG_gt_only; [exact Hp1|exact Ho|apply Hn; apply Hp1] ].
+    unfold clear_gt_after_blacklist_v2 in H2; apply bind_ok in H2; destruct H2 as ([[s1 nw] tg] & Hl & H2);
+      inversion H2; subst w2; clear H2; destruct (clear_gt_loop_v2_only _ _ _ _ _ _ _ Hl) as [Ho Hn].
+    apply PreG_gt_only; [exact Hp1|exact Ho|apply Hn; apply Hp1]. }
+  apply bind_ok in E. destruct E as (w3 & H3 & E).
+  assert (w3 = w2) by (destruct Hv as [-> | [-> | [-> | ->]]]; cbn [has_nft] in H3; inversion H3; reflexivity). subst w3.
+  inversion E; subst w'; clear E.
+  destruct Hv as [-> | [-> | [-> | ->]]]; try exact Hp2.
+  destruct we; [|exact Hp2]. eapply PreG_ext; [| |exact Hp2]; reflexivity.
+Qed.
+
+Lemma unblacklist_loop_only : forall l s s', unblacklist_loop s l = Ok s' -> exists bl, s' = s <| blacklisted := bl |>.
+Proof.
+  induction l as [|a l IH]; intros s s' E; cbn [unblacklist_loop] in E.
+  - inversion E; subst. exists (blacklisted s'). destruct s'; reflexivity.
+  - apply bind_ok in E. destruct E as (u & _ & E). destruct (IH _ _ E) as (bl & ->). exists bl. reflexivity.
+Qed.
+
+Theorem PreG_unblacklist v e w l la w' :
+  guar v -> PreG w l -> unblacklist_endpoint v e w la = Ok w' -> PreG w' l.
+Proof.
+  intros Hv Hp E. unfold unblacklist_endpoint in E.
+  apply bind_ok in E. destruct E as (w1 & H1 & E).
+  unfold remove_users_from_blacklist in H1. apply bind_ok in H1. destruct H1 as (u1 & _ & H1). apply bind_ok in H1. destruct H1 as (u2 & _ & H1).
+  apply bind_ok in H1. destruct H1 as (s1 & Hl & H1). inversion H1; subst w1; clear H1.
+  destruct (unblacklist_loop_only _ _ _ Hl) as (bl & ->).
+  assert (Hp1 : PreG (set_st w (st w <| blacklisted := bl |>)) l).
+  { eapply PreG_neutral; [| | |exact Hp]; rewrite ?st_set_st, ?bal_set_st; try reflexivity. unfold neutral. cbn. repeat split. }
+  destruct Hv as [-> | [-> | [-> | ->]]]; try discriminate.
+  1,2: unfold unblacklist_gt_v1 in E; apply bind_ok in E; destruct E as ([[s2 nw] tg] & Hl2 & E); inversion E; subst w'; clear E;
+       destruct (unbl_gt_loop_v1_only _ _ _ _ _ _ _ Hl2) as [Ho Hn]; apply PreG_gt_only; [exact Hp1|exact Ho|apply Hn; apply Hp1].
+  apply bind_ok in E. destruct E as (w2 & H2 & E). inversion E; subst w'; clear E.
+  unfold unblacklist_gt_v2 in H2. apply bind_ok in H2. destruct H2 as ([[s2 nw] tg] & Hl2 & H2). inversion H2; subst w2; clear H2.
+  destruct (unbl_gt_loop_v2_only _ _ _ _ _ _ _ Hl2) as [Ho Hn].
+  eapply PreG_ext; [| |apply PreG_gt_only; [exact Hp1|exact Ho|apply Hn; apply Hp1]]; reflexivity.
+Qed.
+
 Section HSetupGt.
 Variable H : list N -> list N.
 
@@ -338,8 +496,6 @@ Proof.
     replace ((1 <=? sc_addr) && (sc_addr <=? 24)) with false by (vm_compute; reflexivity); lia.
 Qed.
 
-Definition guar (v : variant) : Prop := v = Gt1 \/ v = Mig \/ v = Lgt \/ v = Gt2.
-
 Lemma deploy_PreG v e lp tpt0 ptok price0 nrw conf ws claim x s :
   guar v -> deploy v e lp tpt0 ptok price0 nrw conf ws claim x = Ok s -> lp <> egld -> PreG (world0 s) [].
 Proof.
@@ -369,14 +525,26 @@ Inductive setup_reach_gt (v : variant) : world -> Prop :=
     exec H v e b sd w (CAddTicketsV1 lx) = Ok (w', r) -> setup_reach_gt v w'
 | sg_add_v2 w e b sd lx w' r :
     setup_reach_gt v w -> ~ In sc_addr (map fst (v2_sizes lx)) ->
-    exec H v e b sd w (CAddTicketsV2 lx) = Ok (w', r) -> setup_reach_gt v w'.
+    exec H v e b sd w (CAddTicketsV2 lx) = Ok (w', r) -> setup_reach_gt v w'
+| sg_blacklist w e b sd la w' r :
+    setup_reach_gt v w -> ~ In sc_addr la ->
+    exec H v e b sd w (CBlacklist la) = Ok (w', r) -> setup_reach_gt v w'
+| sg_refund w e b sd la w' r :
+    setup_reach_gt v w -> ~ In sc_addr la ->
+    exec H v e b sd w (CRefund la) = Ok (w', r) -> setup_reach_gt v w'
+| sg_unblacklist w e b sd la w' r :
+    setup_reach_gt v w ->
+    exec H v e b sd w (CUnblacklist la) = Ok (w', r) -> setup_reach_gt v w'.
 
 Theorem setup_reach_gt_PreG v w : guar v -> setup_reach_gt v w -> exists l, PreG w l.
 Proof.
   intros Hv. induction 1 as [e lp tpt0 ptok price0 nrw conf ws claim x s Hd Hlp
                             | w e b sd c w' r _ IH Hc Hwf Hcs E
                             | w e b sd lx w' r _ IH Hpos Hsc E
-                            | w e b sd lx w' r _ IH Hsc E].
+                            | w e b sd lx w' r _ IH Hsc E
+                            | w e b sd la w' r _ IH Hsc E
+                            | w e b sd la w' r _ IH Hsc E
+                            | w e b sd la w' r _ IH E].
   - exists []. eapply deploy_PreG; eauto.
   - destruct IH as [l Hl]. exists l. eapply PreG_exec_common; eauto.
   - destruct IH as [l Hl]. exists (l ++ v1_sizes lx).
@@ -395,6 +563,29 @@ Proof.
     cbn [credit_payment bind] in E. cbn [dispatch] in E.
     destruct v; try discriminate. unfold ret0 in E. mon_inv.
     eapply PreG_add_tickets_v2; eauto.
+  - destruct IH as [l Hl]. exists l.
+    set (w0 := w <| evs := [] |> <| rlog := [] |> <| locks := [] |> <| seeds := sd |>).
+    assert (Hpre0 : PreG w0 l) by (eapply PreG_ext; [| |exact Hl]; reflexivity).
+    unfold exec in E. cbn [payable] in E. fold w0 in E.
+    apply bind_ok in E. destruct E as (u & Hnp & E). apply no_payment_nil in Hnp. rewrite Hnp in E.
+    cbn [credit_payment bind] in E. cbn [dispatch] in E. unfold ret0 in E. mon_inv.
+    eapply PreG_blacklist; eauto.
+  - destruct IH as [l Hl]. exists l.
+    set (w0 := w <| evs := [] |> <| rlog := [] |> <| locks := [] |> <| seeds := sd |>).
+    assert (Hpre0 : PreG w0 l) by (eapply PreG_ext; [| |exact Hl]; reflexivity).
+    unfold exec in E. cbn [payable] in E. fold w0 in E.
+    apply bind_ok in E. destruct E as (u & Hnp & E). apply no_payment_nil in Hnp. rewrite Hnp in E.
+    cbn [credit_payment bind] in E. cbn [dispatch] in E.
+    destruct v; try discriminate. unfold ret0 in E. mon_inv.
+    eapply PreG_blacklist; eauto.
+  - destruct IH as [l Hl]. exists l.
+    set (w0 := w <| evs := [] |> <| rlog := [] |> <| locks := [] |> <| seeds := sd |>).
+    assert (Hpre0 : PreG w0 l) by (eapply PreG_ext; [| |exact Hl]; reflexivity).
+    unfold exec in E. cbn [payable] in E. fold w0 in E.
+    apply bind_ok in E. destruct E as (u & Hnp & E). apply no_payment_nil in Hnp. rewrite Hnp in E.
+    cbn [credit_payment bind] in E. cbn [dispatch] in E.
+    destruct (has_unblacklist v); [|discriminate]. unfold ret0 in E. mon_inv.
+    eapply PreG_unblacklist; eauto.
 Qed.
 
 (** from deployment through the three stages *)
@@ -451,5 +642,47 @@ Proof.
             | cbn; first [ right; left; eexists; reflexivity | right; right; split; [discriminate | repeat constructor; cbn; discriminate] ]
             | vm_compute; discriminate
             | eexists _, _; vm_compute; reflexivity ]).
+  exact H1.
+Qed.
+
+(** a set-up history with a blacklisted and restored guarantee holder *)
+Definition gt2_bl_history : world :=
+  run_sha Gt2 gt2_0
+    [ (mkenv 1 1 0 [], 100%nat, [], CAddTicketsV2 [(2, 3, [(1, 2)]); (3, 3, [(1, 1)]); (4, 4, [])]);
+      (mkenv 1 2 0 [(1, 0, 300)], 100%nat, [], CDeposit);
+      (mkenv 1 3 0 [], 100%nat, [], CBlacklist [3]);
+      (mkenv 1 4 0 [], 100%nat, [], CUnblacklist [3]);
+      (mkenv 1 5 0 [], 100%nat, [], CRefund [4]) ].
+
+Example gt2_bl_history_reachable :
+  setup_reach_gt sha256 Gt2 gt2_bl_history /\
+  (gt_users (st gt2_bl_history), nr_winning (st gt2_bl_history), total_guaranteed (st gt2_bl_history),
+   blacklisted (st gt2_bl_history) 3, blacklisted (st gt2_bl_history) 4) = ([2; 3], 1, 2, false, true).
+Proof.
+  split; [|vm_compute; reflexivity].
+  unfold gt2_bl_history, run_sha. cbn [fold_left].
+  assert (H0 : setup_reach_gt sha256 Gt2 gt2_0).
+  { unfold gt2_0. destruct (deploy Gt2 (mkenv 1 0 0 []) 1 100 0 1000 3 10 20 30 x0) as [s|k] eqn:Ed; [|vm_compute in Ed; discriminate].
+    eapply sg_deploy; [exact Ed|]. vm_compute. discriminate. }
+  assert (H1 : setup_reach_gt sha256 Gt2 (step_sha Gt2 gt2_0
+            (mkenv 1 1 0 [], 100%nat, [], CAddTicketsV2 [(2, 3, [(1, 2)]); (3, 3, [(1, 1)]); (4, 4, [])]))).
+  { unfold step_sha, exec_sha.
+    destruct (exec sha256 Gt2 (mkenv 1 1 0 []) 100 [] gt2_0 (CAddTicketsV2 [(2, 3, [(1, 2)]); (3, 3, [(1, 1)]); (4, 4, [])])) as [[w' r]|k] eqn:E;
+      [|vm_compute in E; discriminate].
+    eapply sg_add_v2; [exact H0 | | exact E]. vm_compute. intros [Hx|[Hx|[Hx|Hx]]]; try discriminate Hx; exact Hx. }
+  match goal with |- setup_reach_gt _ _ (step_sha _ ?w (?e, ?b, ?sd, CRefund ?l)) =>
+    unfold step_sha at 1, exec_sha at 1; destruct (exec sha256 Gt2 e b sd w (CRefund l)) as [[w' r]|k] eqn:E; [|vm_compute in E; discriminate];
+    eapply sg_refund; [| |exact E]; [|vm_compute; intros [Hx|Hx]; [discriminate Hx|exact Hx]] end.
+  match goal with |- setup_reach_gt _ _ (step_sha _ ?w (?e, ?b, ?sd, CUnblacklist ?l)) =>
+    unfold step_sha at 1, exec_sha at 1; destruct (exec sha256 Gt2 e b sd w (CUnblacklist l)) as [[w2' r2]|k] eqn:E2; [|vm_compute in E2; discriminate];
+    eapply sg_unblacklist; [|exact E2] end.
+  match goal with |- setup_reach_gt _ _ (step_sha _ ?w (?e, ?b, ?sd, CBlacklist ?l)) =>
+    unfold step_sha at 1, exec_sha at 1; destruct (exec sha256 Gt2 e b sd w (CBlacklist l)) as [[w3' r3]|k] eqn:E3; [|vm_compute in E3; discriminate];
+    eapply sg_blacklist; [| |exact E3]; [|vm_compute; intros [Hx|Hx]; [discriminate Hx|exact Hx]] end.
+  apply step_common;
+          [ | apply cc_deposit
+            | cbn; right; right; split; [discriminate | repeat constructor; cbn; discriminate]
+            | vm_compute; discriminate
+            | eexists _, _; vm_compute; reflexivity ].
   exact H1.
 Qed.
